@@ -238,10 +238,26 @@ def run_case(case):
         COL.violation("C11.params", bad, wit0)
         return
     COL.ok("C11.params", (g, tuple(sorted(kw))))
+    # a second, different cosmology alive at the same time: every call below is repeated on it with bit-identical
+    # arguments right after the first object's call (state must not leak between objects or between calls)
+    kw2, p2 = draw_cosmo(rng, ["flat", "open", "closed"][int(rng.integers(0, 3))])
+    c_other = cosmology.Cosmo(**kw2)
     # ---- scalar values (judged by the wrappers) and identities
     n = 6 if fam != "concordance" else 10
     lo, hi = zpairs(rng, n)
     for a, b in zip(lo.tolist(), hi.tolist()):
+        for m in TWO:
+            getattr(c, m)(a, b)
+            getattr(c_other, m)(a, b)
+            getattr(c_other, m)(a, min(b + 0.25, 5.0))
+            getattr(c, m)(a, min(b + 0.25, 5.0))
+        za = np.array([a, a, min(a + 0.1, 5.0)])
+        zb = np.array([b, min(b + 0.5, 5.0), 5.0])
+        for m in TWO:
+            getattr(c, m)(za, zb)
+            getattr(c_other, m)(za, zb)
+            getattr(c_other, m)(za[-1], zb)
+            getattr(c, m)(za[-1], zb)
         dc, dm, da, dl = c.Dc(a, b), c.Dm(a, b), c.Da(a, b), c.Dl(a, b)
         c.Ezinv_integral(a, b)
         c.Ez_inverse(b)
